@@ -99,6 +99,21 @@ class Generator:
                 self.emit('\n} // mod %s\n' % mod)
         self.module('lib.rs', top=True)
         self.emit('\nfn main() {}\n')
+        # call-site restrictions (@onlycaller): the named call may occur only in the function carrying the directive
+        for addr, c in self.contracts.items():
+            for (call_re, oid, tags) in c.callsites:
+                offenders = []
+                for f in self.fns:
+                    if not hasattr(f, '_seg_range') or f.addr == addr or '#canary' in f.addr:
+                        continue
+                    a0, b0 = f._seg_range
+                    srctext = ''.join(sg.text for sg in self.segs[a0:b0] if sg.origin == 'src')
+                    if re.search(call_re, srctext):
+                        offenders.append(f.addr)
+                here = next((f for f in self.fns if f.addr == addr), None)
+                self.syntactic.append(dict(oid=oid, tags=tags, addr=(offenders[0] if offenders else addr), ok=not offenders,
+                                           why=('/%s/ is also called from %s' % (call_re, ', '.join(offenders))) if offenders else '',
+                                           src_file=here.src_file if here else '', src_line=here.src_line if here else 0))
         unused = set(self.contracts) - self.used_contracts
         if unused:
             raise ToolCondition('lost anchor: contract(s) name items that no longer exist: %s' % sorted(unused))
